@@ -5,7 +5,7 @@ ID = "C04"
 BOUNDS = {
     "quick": "one Labware.add / Labware.remove / worklist aspirate / dispense from an arbitrary valid state (symbolic per-well volumes and limits); "
              "argument shapes: scalar id, lists of k<=3 ids chosen from 4 candidates (repeats, trough virtual-row aliases) with list / scalar / too-long "
-             "volume arguments, 2-D well slices up to 2x2 with 2-D / scalar / flat volume arguments; geometries plate 2x2, 2x3 and trough 3 virtual rows x 2 columns",
+             "volume arguments, 2-D well slices up to 2x2 with 2-D / scalar / flat volume arguments; additions without, with empty and with named compositions; geometries plate 2x2, 2x3 and trough 3 virtual rows x 2 columns",
     "thorough": "as quick with k<=4, 2-D slices up to 2x3, plus plates 3x2, 8x2, 1x1 and troughs 1x1, 8x1",
 }
 OUTSIDE = "longer lists, larger slices, other geometries; float rounding of sums (Real arithmetic); histories are covered inductively (arbitrary pre-state)"
@@ -43,13 +43,19 @@ def scenario(ctx, p):
     wells, vols, pairs, shape = lwops.build_args(ctx, lab, p)
     ctx.ctx.update(lab=lab, pre={k[1]: v for k, v in pre.items()}, pairs=pairs, shape=shape, args=(wells, vols))
     op = p["op"]
+    kw = {}
+    if op in ("add", "dispense") and pairs is not None:
+        # the composition argument must not influence the volume bookkeeping: none / empty dicts / a named liquid
+        comp = ctx.choose("compositions", ["none", "empty", "named"])
+        if comp != "none":
+            kw["compositions"] = [({} if comp == "empty" else {"water": 1.0}) for _ in pairs]
     if op in ("add", "remove"):
-        getattr(lab, op)(wells, vols)
+        getattr(lab, op)(wells, vols, **kw)
     else:
         dev = ctx.choose("dev", ["evo", "fluent"])
         wl = common.make_worklist(ctx, dev, 1e9)
         ctx.ctx["wl"] = wl
-        getattr(wl, op)(lab, wells, vols)
+        getattr(wl, op)(lab, wells, vols, **kw)
     return lab
 
 
